@@ -52,151 +52,151 @@ func c01Packet(first gopacket.LayerType, n int) {
 	verifReached("pkt")
 }
 
-func verif_C01_pkt_AGUEVar0() { c01Packet(LayerTypeAGUEVar0, 12) }
-func verif_C01_pkt_AGUEVar1() { c01Packet(LayerTypeAGUEVar1, 12) }
-func verif_C01_pkt_APSP() { c01Packet(LayerTypeAPSP, 12) }
-func verif_C01_pkt_ARP() { c01Packet(LayerTypeARP, 12) }
-func verif_C01_pkt_ASF() { c01Packet(LayerTypeASF, 12) }
-func verif_C01_pkt_ASFPresencePong() { c01Packet(LayerTypeASFPresencePong, 12) }
-func verif_C01_pkt_BFD() { c01Packet(LayerTypeBFD, 12) }
-func verif_C01_pkt_CIP() { c01Packet(LayerTypeCIP, 12) }
-func verif_C01_pkt_CiscoDiscovery() { c01Packet(LayerTypeCiscoDiscovery, 12) }
-func verif_C01_pkt_CiscoDiscoveryInfo() { c01Packet(LayerTypeCiscoDiscoveryInfo, 12) }
-func verif_C01_pkt_DHCPv4() { c01Packet(LayerTypeDHCPv4, 12) }
-func verif_C01_pkt_DHCPv6() { c01Packet(LayerTypeDHCPv6, 12) }
-func verif_C01_pkt_DNS() { c01Packet(LayerTypeDNS, 12) }
-func verif_C01_pkt_Diameter() { c01Packet(LayerTypeDiameter, 12) }
-func verif_C01_pkt_Dot11() { c01Packet(LayerTypeDot11, 12) }
-func verif_C01_pkt_Dot11Ctrl() { c01Packet(LayerTypeDot11Ctrl, 12) }
-func verif_C01_pkt_Dot11CtrlAck() { c01Packet(LayerTypeDot11CtrlAck, 12) }
-func verif_C01_pkt_Dot11CtrlBlockAck() { c01Packet(LayerTypeDot11CtrlBlockAck, 12) }
-func verif_C01_pkt_Dot11CtrlBlockAckReq() { c01Packet(LayerTypeDot11CtrlBlockAckReq, 12) }
-func verif_C01_pkt_Dot11CtrlCFEnd() { c01Packet(LayerTypeDot11CtrlCFEnd, 12) }
-func verif_C01_pkt_Dot11CtrlCFEndAck() { c01Packet(LayerTypeDot11CtrlCFEndAck, 12) }
-func verif_C01_pkt_Dot11CtrlCTS() { c01Packet(LayerTypeDot11CtrlCTS, 12) }
-func verif_C01_pkt_Dot11CtrlPowersavePoll() { c01Packet(LayerTypeDot11CtrlPowersavePoll, 12) }
-func verif_C01_pkt_Dot11CtrlRTS() { c01Packet(LayerTypeDot11CtrlRTS, 12) }
-func verif_C01_pkt_Dot11Data() { c01Packet(LayerTypeDot11Data, 12) }
-func verif_C01_pkt_Dot11DataCFAck() { c01Packet(LayerTypeDot11DataCFAck, 12) }
-func verif_C01_pkt_Dot11DataCFAckNoData() { c01Packet(LayerTypeDot11DataCFAckNoData, 12) }
-func verif_C01_pkt_Dot11DataCFAckPoll() { c01Packet(LayerTypeDot11DataCFAckPoll, 12) }
-func verif_C01_pkt_Dot11DataCFAckPollNoData() { c01Packet(LayerTypeDot11DataCFAckPollNoData, 12) }
-func verif_C01_pkt_Dot11DataCFPoll() { c01Packet(LayerTypeDot11DataCFPoll, 12) }
-func verif_C01_pkt_Dot11DataCFPollNoData() { c01Packet(LayerTypeDot11DataCFPollNoData, 12) }
-func verif_C01_pkt_Dot11DataNull() { c01Packet(LayerTypeDot11DataNull, 12) }
-func verif_C01_pkt_Dot11DataQOSCFAckPollNoData() { c01Packet(LayerTypeDot11DataQOSCFAckPollNoData, 12) }
-func verif_C01_pkt_Dot11DataQOSCFPollNoData() { c01Packet(LayerTypeDot11DataQOSCFPollNoData, 12) }
-func verif_C01_pkt_Dot11DataQOSData() { c01Packet(LayerTypeDot11DataQOSData, 12) }
-func verif_C01_pkt_Dot11DataQOSDataCFAck() { c01Packet(LayerTypeDot11DataQOSDataCFAck, 12) }
-func verif_C01_pkt_Dot11DataQOSDataCFAckPoll() { c01Packet(LayerTypeDot11DataQOSDataCFAckPoll, 12) }
-func verif_C01_pkt_Dot11DataQOSDataCFPoll() { c01Packet(LayerTypeDot11DataQOSDataCFPoll, 12) }
-func verif_C01_pkt_Dot11DataQOSNull() { c01Packet(LayerTypeDot11DataQOSNull, 12) }
-func verif_C01_pkt_Dot11InformationElement() { c01Packet(LayerTypeDot11InformationElement, 12) }
-func verif_C01_pkt_Dot11MgmtATIM() { c01Packet(LayerTypeDot11MgmtATIM, 12) }
-func verif_C01_pkt_Dot11MgmtAction() { c01Packet(LayerTypeDot11MgmtAction, 12) }
-func verif_C01_pkt_Dot11MgmtActionNoAck() { c01Packet(LayerTypeDot11MgmtActionNoAck, 12) }
-func verif_C01_pkt_Dot11MgmtArubaWLAN() { c01Packet(LayerTypeDot11MgmtArubaWLAN, 12) }
-func verif_C01_pkt_Dot11MgmtAssociationReq() { c01Packet(LayerTypeDot11MgmtAssociationReq, 12) }
-func verif_C01_pkt_Dot11MgmtAssociationResp() { c01Packet(LayerTypeDot11MgmtAssociationResp, 12) }
-func verif_C01_pkt_Dot11MgmtAuthentication() { c01Packet(LayerTypeDot11MgmtAuthentication, 12) }
-func verif_C01_pkt_Dot11MgmtBeacon() { c01Packet(LayerTypeDot11MgmtBeacon, 12) }
-func verif_C01_pkt_Dot11MgmtDeauthentication() { c01Packet(LayerTypeDot11MgmtDeauthentication, 12) }
-func verif_C01_pkt_Dot11MgmtDisassociation() { c01Packet(LayerTypeDot11MgmtDisassociation, 12) }
-func verif_C01_pkt_Dot11MgmtMeasurementPilot() { c01Packet(LayerTypeDot11MgmtMeasurementPilot, 12) }
-func verif_C01_pkt_Dot11MgmtProbeReq() { c01Packet(LayerTypeDot11MgmtProbeReq, 12) }
-func verif_C01_pkt_Dot11MgmtProbeResp() { c01Packet(LayerTypeDot11MgmtProbeResp, 12) }
-func verif_C01_pkt_Dot11MgmtReassociationReq() { c01Packet(LayerTypeDot11MgmtReassociationReq, 12) }
-func verif_C01_pkt_Dot11MgmtReassociationResp() { c01Packet(LayerTypeDot11MgmtReassociationResp, 12) }
-func verif_C01_pkt_Dot11WEP() { c01Packet(LayerTypeDot11WEP, 12) }
-func verif_C01_pkt_Dot1Q() { c01Packet(LayerTypeDot1Q, 12) }
-func verif_C01_pkt_EAP() { c01Packet(LayerTypeEAP, 12) }
-func verif_C01_pkt_EAPOL() { c01Packet(LayerTypeEAPOL, 12) }
-func verif_C01_pkt_EAPOLKey() { c01Packet(LayerTypeEAPOLKey, 12) }
-func verif_C01_pkt_ENIP() { c01Packet(LayerTypeENIP, 12) }
-func verif_C01_pkt_ERSPANII() { c01Packet(LayerTypeERSPANII, 12) }
-func verif_C01_pkt_EtherIP() { c01Packet(LayerTypeEtherIP, 12) }
-func verif_C01_pkt_Ethernet() { c01Packet(LayerTypeEthernet, 12) }
-func verif_C01_pkt_EthernetCTP() { c01Packet(LayerTypeEthernetCTP, 12) }
-func verif_C01_pkt_EthernetCTPForwardData() { c01Packet(LayerTypeEthernetCTPForwardData, 12) }
-func verif_C01_pkt_EthernetCTPReply() { c01Packet(LayerTypeEthernetCTPReply, 12) }
-func verif_C01_pkt_FDDI() { c01Packet(LayerTypeFDDI, 12) }
-func verif_C01_pkt_GRE() { c01Packet(LayerTypeGRE, 12) }
-func verif_C01_pkt_GTPv1U() { c01Packet(LayerTypeGTPv1U, 12) }
-func verif_C01_pkt_GTPv2() { c01Packet(LayerTypeGTPv2, 12) }
-func verif_C01_pkt_Geneve() { c01Packet(LayerTypeGeneve, 12) }
-func verif_C01_pkt_ICMPv4() { c01Packet(LayerTypeICMPv4, 12) }
-func verif_C01_pkt_ICMPv6() { c01Packet(LayerTypeICMPv6, 12) }
-func verif_C01_pkt_ICMPv6Echo() { c01Packet(LayerTypeICMPv6Echo, 12) }
-func verif_C01_pkt_ICMPv6NeighborAdvertisement() { c01Packet(LayerTypeICMPv6NeighborAdvertisement, 12) }
-func verif_C01_pkt_ICMPv6NeighborSolicitation() { c01Packet(LayerTypeICMPv6NeighborSolicitation, 12) }
-func verif_C01_pkt_ICMPv6Redirect() { c01Packet(LayerTypeICMPv6Redirect, 12) }
-func verif_C01_pkt_ICMPv6RouterAdvertisement() { c01Packet(LayerTypeICMPv6RouterAdvertisement, 12) }
-func verif_C01_pkt_ICMPv6RouterSolicitation() { c01Packet(LayerTypeICMPv6RouterSolicitation, 12) }
-func verif_C01_pkt_IGMP() { c01Packet(LayerTypeIGMP, 12) }
-func verif_C01_pkt_IPSecAH() { c01Packet(LayerTypeIPSecAH, 12) }
-func verif_C01_pkt_IPSecESP() { c01Packet(LayerTypeIPSecESP, 12) }
-func verif_C01_pkt_IPv4() { c01Packet(LayerTypeIPv4, 12) }
-func verif_C01_pkt_IPv6() { c01Packet(LayerTypeIPv6, 12) }
-func verif_C01_pkt_IPv6Destination() { c01Packet(LayerTypeIPv6Destination, 12) }
-func verif_C01_pkt_IPv6Fragment() { c01Packet(LayerTypeIPv6Fragment, 12) }
-func verif_C01_pkt_IPv6HopByHop() { c01Packet(LayerTypeIPv6HopByHop, 12) }
-func verif_C01_pkt_IPv6Routing() { c01Packet(LayerTypeIPv6Routing, 12) }
-func verif_C01_pkt_LCM() { c01Packet(LayerTypeLCM, 12) }
-func verif_C01_pkt_LLC() { c01Packet(LayerTypeLLC, 12) }
-func verif_C01_pkt_LinkLayerDiscovery() { c01Packet(LayerTypeLinkLayerDiscovery, 12) }
-func verif_C01_pkt_LinkLayerDiscoveryInfo() { c01Packet(LayerTypeLinkLayerDiscoveryInfo, 12) }
-func verif_C01_pkt_LinuxSLL() { c01Packet(LayerTypeLinuxSLL, 12) }
-func verif_C01_pkt_LinuxSLL2() { c01Packet(LayerTypeLinuxSLL2, 12) }
-func verif_C01_pkt_Loopback() { c01Packet(LayerTypeLoopback, 12) }
-func verif_C01_pkt_MDP() { c01Packet(LayerTypeMDP, 12) }
-func verif_C01_pkt_MLDv1MulticastListenerDone() { c01Packet(LayerTypeMLDv1MulticastListenerDone, 12) }
-func verif_C01_pkt_MLDv1MulticastListenerQuery() { c01Packet(LayerTypeMLDv1MulticastListenerQuery, 12) }
-func verif_C01_pkt_MLDv1MulticastListenerReport() { c01Packet(LayerTypeMLDv1MulticastListenerReport, 12) }
-func verif_C01_pkt_MLDv2MulticastListenerQuery() { c01Packet(LayerTypeMLDv2MulticastListenerQuery, 12) }
-func verif_C01_pkt_MLDv2MulticastListenerReport() { c01Packet(LayerTypeMLDv2MulticastListenerReport, 12) }
-func verif_C01_pkt_MPLS() { c01Packet(LayerTypeMPLS, 12) }
-func verif_C01_pkt_Modbus() { c01Packet(LayerTypeModbus, 12) }
-func verif_C01_pkt_ModbusTCP() { c01Packet(LayerTypeModbusTCP, 12) }
-func verif_C01_pkt_NTP() { c01Packet(LayerTypeNTP, 12) }
-func verif_C01_pkt_NortelDiscovery() { c01Packet(LayerTypeNortelDiscovery, 12) }
-func verif_C01_pkt_OSPF() { c01Packet(LayerTypeOSPF, 12) }
-func verif_C01_pkt_PFLog() { c01Packet(LayerTypePFLog, 12) }
-func verif_C01_pkt_PPP() { c01Packet(LayerTypePPP, 12) }
-func verif_C01_pkt_PPPoE() { c01Packet(LayerTypePPPoE, 12) }
-func verif_C01_pkt_Pktap() { c01Packet(LayerTypePktap, 12) }
-func verif_C01_pkt_PrismHeader() { c01Packet(LayerTypePrismHeader, 12) }
-func verif_C01_pkt_RADIUS() { c01Packet(LayerTypeRADIUS, 12) }
-func verif_C01_pkt_RMCP() { c01Packet(LayerTypeRMCP, 12) }
-func verif_C01_pkt_RUDP() { c01Packet(LayerTypeRUDP, 12) }
-func verif_C01_pkt_RadioTap() { c01Packet(LayerTypeRadioTap, 12) }
-func verif_C01_pkt_SCTP() { c01Packet(LayerTypeSCTP, 12) }
-func verif_C01_pkt_SCTPAbort() { c01Packet(LayerTypeSCTPAbort, 12) }
-func verif_C01_pkt_SCTPCookieAck() { c01Packet(LayerTypeSCTPCookieAck, 12) }
-func verif_C01_pkt_SCTPCookieEcho() { c01Packet(LayerTypeSCTPCookieEcho, 12) }
-func verif_C01_pkt_SCTPData() { c01Packet(LayerTypeSCTPData, 12) }
-func verif_C01_pkt_SCTPEmptyLayer() { c01Packet(LayerTypeSCTPEmptyLayer, 12) }
-func verif_C01_pkt_SCTPError() { c01Packet(LayerTypeSCTPError, 12) }
-func verif_C01_pkt_SCTPHeartbeat() { c01Packet(LayerTypeSCTPHeartbeat, 12) }
-func verif_C01_pkt_SCTPHeartbeatAck() { c01Packet(LayerTypeSCTPHeartbeatAck, 12) }
-func verif_C01_pkt_SCTPInit() { c01Packet(LayerTypeSCTPInit, 12) }
-func verif_C01_pkt_SCTPInitAck() { c01Packet(LayerTypeSCTPInitAck, 12) }
-func verif_C01_pkt_SCTPSack() { c01Packet(LayerTypeSCTPSack, 12) }
-func verif_C01_pkt_SCTPShutdown() { c01Packet(LayerTypeSCTPShutdown, 12) }
-func verif_C01_pkt_SCTPShutdownAck() { c01Packet(LayerTypeSCTPShutdownAck, 12) }
-func verif_C01_pkt_SCTPShutdownComplete() { c01Packet(LayerTypeSCTPShutdownComplete, 12) }
-func verif_C01_pkt_SCTPUnknownChunkType() { c01Packet(LayerTypeSCTPUnknownChunkType, 12) }
-func verif_C01_pkt_SFlow() { c01Packet(LayerTypeSFlow, 12) }
-func verif_C01_pkt_SIP() { c01Packet(LayerTypeSIP, 12) }
-func verif_C01_pkt_SNAP() { c01Packet(LayerTypeSNAP, 12) }
-func verif_C01_pkt_STP() { c01Packet(LayerTypeSTP, 12) }
-func verif_C01_pkt_TCP() { c01Packet(LayerTypeTCP, 12) }
-func verif_C01_pkt_TLS() { c01Packet(LayerTypeTLS, 12) }
-func verif_C01_pkt_UDP() { c01Packet(LayerTypeUDP, 12) }
-func verif_C01_pkt_UDPLite() { c01Packet(LayerTypeUDPLite, 12) }
-func verif_C01_pkt_USB() { c01Packet(LayerTypeUSB, 12) }
-func verif_C01_pkt_USBBulk() { c01Packet(LayerTypeUSBBulk, 12) }
-func verif_C01_pkt_USBControl() { c01Packet(LayerTypeUSBControl, 12) }
-func verif_C01_pkt_USBInterrupt() { c01Packet(LayerTypeUSBInterrupt, 12) }
-func verif_C01_pkt_USBRequestBlockSetup() { c01Packet(LayerTypeUSBRequestBlockSetup, 12) }
-func verif_C01_pkt_VRRP() { c01Packet(LayerTypeVRRP, 12) }
-func verif_C01_pkt_VXLAN() { c01Packet(LayerTypeVXLAN, 12) }
+func verif_C01_pkt_AGUEVar0() { c01Packet(LayerTypeAGUEVar0, 10) }
+func verif_C01_pkt_AGUEVar1() { c01Packet(LayerTypeAGUEVar1, 10) }
+func verif_C01_pkt_APSP() { c01Packet(LayerTypeAPSP, 10) }
+func verif_C01_pkt_ARP() { c01Packet(LayerTypeARP, 10) }
+func verif_C01_pkt_ASF() { c01Packet(LayerTypeASF, 10) }
+func verif_C01_pkt_ASFPresencePong() { c01Packet(LayerTypeASFPresencePong, 10) }
+func verif_C01_pkt_BFD() { c01Packet(LayerTypeBFD, 10) }
+func verif_C01_pkt_CIP() { c01Packet(LayerTypeCIP, 10) }
+func verif_C01_pkt_CiscoDiscovery() { c01Packet(LayerTypeCiscoDiscovery, 10) }
+func verif_C01_pkt_CiscoDiscoveryInfo() { c01Packet(LayerTypeCiscoDiscoveryInfo, 10) }
+func verif_C01_pkt_DHCPv4() { c01Packet(LayerTypeDHCPv4, 10) }
+func verif_C01_pkt_DHCPv6() { c01Packet(LayerTypeDHCPv6, 10) }
+func verif_C01_pkt_DNS() { c01Packet(LayerTypeDNS, 10) }
+func verif_C01_pkt_Diameter() { c01Packet(LayerTypeDiameter, 10) }
+func verif_C01_pkt_Dot11() { c01Packet(LayerTypeDot11, 10) }
+func verif_C01_pkt_Dot11Ctrl() { c01Packet(LayerTypeDot11Ctrl, 10) }
+func verif_C01_pkt_Dot11CtrlAck() { c01Packet(LayerTypeDot11CtrlAck, 10) }
+func verif_C01_pkt_Dot11CtrlBlockAck() { c01Packet(LayerTypeDot11CtrlBlockAck, 10) }
+func verif_C01_pkt_Dot11CtrlBlockAckReq() { c01Packet(LayerTypeDot11CtrlBlockAckReq, 10) }
+func verif_C01_pkt_Dot11CtrlCFEnd() { c01Packet(LayerTypeDot11CtrlCFEnd, 10) }
+func verif_C01_pkt_Dot11CtrlCFEndAck() { c01Packet(LayerTypeDot11CtrlCFEndAck, 10) }
+func verif_C01_pkt_Dot11CtrlCTS() { c01Packet(LayerTypeDot11CtrlCTS, 10) }
+func verif_C01_pkt_Dot11CtrlPowersavePoll() { c01Packet(LayerTypeDot11CtrlPowersavePoll, 10) }
+func verif_C01_pkt_Dot11CtrlRTS() { c01Packet(LayerTypeDot11CtrlRTS, 10) }
+func verif_C01_pkt_Dot11Data() { c01Packet(LayerTypeDot11Data, 10) }
+func verif_C01_pkt_Dot11DataCFAck() { c01Packet(LayerTypeDot11DataCFAck, 10) }
+func verif_C01_pkt_Dot11DataCFAckNoData() { c01Packet(LayerTypeDot11DataCFAckNoData, 10) }
+func verif_C01_pkt_Dot11DataCFAckPoll() { c01Packet(LayerTypeDot11DataCFAckPoll, 10) }
+func verif_C01_pkt_Dot11DataCFAckPollNoData() { c01Packet(LayerTypeDot11DataCFAckPollNoData, 10) }
+func verif_C01_pkt_Dot11DataCFPoll() { c01Packet(LayerTypeDot11DataCFPoll, 10) }
+func verif_C01_pkt_Dot11DataCFPollNoData() { c01Packet(LayerTypeDot11DataCFPollNoData, 10) }
+func verif_C01_pkt_Dot11DataNull() { c01Packet(LayerTypeDot11DataNull, 10) }
+func verif_C01_pkt_Dot11DataQOSCFAckPollNoData() { c01Packet(LayerTypeDot11DataQOSCFAckPollNoData, 10) }
+func verif_C01_pkt_Dot11DataQOSCFPollNoData() { c01Packet(LayerTypeDot11DataQOSCFPollNoData, 10) }
+func verif_C01_pkt_Dot11DataQOSData() { c01Packet(LayerTypeDot11DataQOSData, 10) }
+func verif_C01_pkt_Dot11DataQOSDataCFAck() { c01Packet(LayerTypeDot11DataQOSDataCFAck, 10) }
+func verif_C01_pkt_Dot11DataQOSDataCFAckPoll() { c01Packet(LayerTypeDot11DataQOSDataCFAckPoll, 10) }
+func verif_C01_pkt_Dot11DataQOSDataCFPoll() { c01Packet(LayerTypeDot11DataQOSDataCFPoll, 10) }
+func verif_C01_pkt_Dot11DataQOSNull() { c01Packet(LayerTypeDot11DataQOSNull, 10) }
+func verif_C01_pkt_Dot11InformationElement() { c01Packet(LayerTypeDot11InformationElement, 10) }
+func verif_C01_pkt_Dot11MgmtATIM() { c01Packet(LayerTypeDot11MgmtATIM, 10) }
+func verif_C01_pkt_Dot11MgmtAction() { c01Packet(LayerTypeDot11MgmtAction, 10) }
+func verif_C01_pkt_Dot11MgmtActionNoAck() { c01Packet(LayerTypeDot11MgmtActionNoAck, 10) }
+func verif_C01_pkt_Dot11MgmtArubaWLAN() { c01Packet(LayerTypeDot11MgmtArubaWLAN, 10) }
+func verif_C01_pkt_Dot11MgmtAssociationReq() { c01Packet(LayerTypeDot11MgmtAssociationReq, 10) }
+func verif_C01_pkt_Dot11MgmtAssociationResp() { c01Packet(LayerTypeDot11MgmtAssociationResp, 10) }
+func verif_C01_pkt_Dot11MgmtAuthentication() { c01Packet(LayerTypeDot11MgmtAuthentication, 10) }
+func verif_C01_pkt_Dot11MgmtBeacon() { c01Packet(LayerTypeDot11MgmtBeacon, 10) }
+func verif_C01_pkt_Dot11MgmtDeauthentication() { c01Packet(LayerTypeDot11MgmtDeauthentication, 10) }
+func verif_C01_pkt_Dot11MgmtDisassociation() { c01Packet(LayerTypeDot11MgmtDisassociation, 10) }
+func verif_C01_pkt_Dot11MgmtMeasurementPilot() { c01Packet(LayerTypeDot11MgmtMeasurementPilot, 10) }
+func verif_C01_pkt_Dot11MgmtProbeReq() { c01Packet(LayerTypeDot11MgmtProbeReq, 10) }
+func verif_C01_pkt_Dot11MgmtProbeResp() { c01Packet(LayerTypeDot11MgmtProbeResp, 10) }
+func verif_C01_pkt_Dot11MgmtReassociationReq() { c01Packet(LayerTypeDot11MgmtReassociationReq, 10) }
+func verif_C01_pkt_Dot11MgmtReassociationResp() { c01Packet(LayerTypeDot11MgmtReassociationResp, 10) }
+func verif_C01_pkt_Dot11WEP() { c01Packet(LayerTypeDot11WEP, 10) }
+func verif_C01_pkt_Dot1Q() { c01Packet(LayerTypeDot1Q, 10) }
+func verif_C01_pkt_EAP() { c01Packet(LayerTypeEAP, 10) }
+func verif_C01_pkt_EAPOL() { c01Packet(LayerTypeEAPOL, 10) }
+func verif_C01_pkt_EAPOLKey() { c01Packet(LayerTypeEAPOLKey, 10) }
+func verif_C01_pkt_ENIP() { c01Packet(LayerTypeENIP, 10) }
+func verif_C01_pkt_ERSPANII() { c01Packet(LayerTypeERSPANII, 10) }
+func verif_C01_pkt_EtherIP() { c01Packet(LayerTypeEtherIP, 10) }
+func verif_C01_pkt_Ethernet() { c01Packet(LayerTypeEthernet, 10) }
+func verif_C01_pkt_EthernetCTP() { c01Packet(LayerTypeEthernetCTP, 10) }
+func verif_C01_pkt_EthernetCTPForwardData() { c01Packet(LayerTypeEthernetCTPForwardData, 10) }
+func verif_C01_pkt_EthernetCTPReply() { c01Packet(LayerTypeEthernetCTPReply, 10) }
+func verif_C01_pkt_FDDI() { c01Packet(LayerTypeFDDI, 10) }
+func verif_C01_pkt_GRE() { c01Packet(LayerTypeGRE, 10) }
+func verif_C01_pkt_GTPv1U() { c01Packet(LayerTypeGTPv1U, 10) }
+func verif_C01_pkt_GTPv2() { c01Packet(LayerTypeGTPv2, 10) }
+func verif_C01_pkt_Geneve() { c01Packet(LayerTypeGeneve, 10) }
+func verif_C01_pkt_ICMPv4() { c01Packet(LayerTypeICMPv4, 10) }
+func verif_C01_pkt_ICMPv6() { c01Packet(LayerTypeICMPv6, 10) }
+func verif_C01_pkt_ICMPv6Echo() { c01Packet(LayerTypeICMPv6Echo, 10) }
+func verif_C01_pkt_ICMPv6NeighborAdvertisement() { c01Packet(LayerTypeICMPv6NeighborAdvertisement, 10) }
+func verif_C01_pkt_ICMPv6NeighborSolicitation() { c01Packet(LayerTypeICMPv6NeighborSolicitation, 10) }
+func verif_C01_pkt_ICMPv6Redirect() { c01Packet(LayerTypeICMPv6Redirect, 10) }
+func verif_C01_pkt_ICMPv6RouterAdvertisement() { c01Packet(LayerTypeICMPv6RouterAdvertisement, 10) }
+func verif_C01_pkt_ICMPv6RouterSolicitation() { c01Packet(LayerTypeICMPv6RouterSolicitation, 10) }
+func verif_C01_pkt_IGMP() { c01Packet(LayerTypeIGMP, 10) }
+func verif_C01_pkt_IPSecAH() { c01Packet(LayerTypeIPSecAH, 10) }
+func verif_C01_pkt_IPSecESP() { c01Packet(LayerTypeIPSecESP, 10) }
+func verif_C01_pkt_IPv4() { c01Packet(LayerTypeIPv4, 10) }
+func verif_C01_pkt_IPv6() { c01Packet(LayerTypeIPv6, 10) }
+func verif_C01_pkt_IPv6Destination() { c01Packet(LayerTypeIPv6Destination, 10) }
+func verif_C01_pkt_IPv6Fragment() { c01Packet(LayerTypeIPv6Fragment, 10) }
+func verif_C01_pkt_IPv6HopByHop() { c01Packet(LayerTypeIPv6HopByHop, 10) }
+func verif_C01_pkt_IPv6Routing() { c01Packet(LayerTypeIPv6Routing, 10) }
+func verif_C01_pkt_LCM() { c01Packet(LayerTypeLCM, 10) }
+func verif_C01_pkt_LLC() { c01Packet(LayerTypeLLC, 10) }
+func verif_C01_pkt_LinkLayerDiscovery() { c01Packet(LayerTypeLinkLayerDiscovery, 10) }
+func verif_C01_pkt_LinkLayerDiscoveryInfo() { c01Packet(LayerTypeLinkLayerDiscoveryInfo, 10) }
+func verif_C01_pkt_LinuxSLL() { c01Packet(LayerTypeLinuxSLL, 10) }
+func verif_C01_pkt_LinuxSLL2() { c01Packet(LayerTypeLinuxSLL2, 10) }
+func verif_C01_pkt_Loopback() { c01Packet(LayerTypeLoopback, 10) }
+func verif_C01_pkt_MDP() { c01Packet(LayerTypeMDP, 10) }
+func verif_C01_pkt_MLDv1MulticastListenerDone() { c01Packet(LayerTypeMLDv1MulticastListenerDone, 10) }
+func verif_C01_pkt_MLDv1MulticastListenerQuery() { c01Packet(LayerTypeMLDv1MulticastListenerQuery, 10) }
+func verif_C01_pkt_MLDv1MulticastListenerReport() { c01Packet(LayerTypeMLDv1MulticastListenerReport, 10) }
+func verif_C01_pkt_MLDv2MulticastListenerQuery() { c01Packet(LayerTypeMLDv2MulticastListenerQuery, 10) }
+func verif_C01_pkt_MLDv2MulticastListenerReport() { c01Packet(LayerTypeMLDv2MulticastListenerReport, 10) }
+func verif_C01_pkt_MPLS() { c01Packet(LayerTypeMPLS, 10) }
+func verif_C01_pkt_Modbus() { c01Packet(LayerTypeModbus, 10) }
+func verif_C01_pkt_ModbusTCP() { c01Packet(LayerTypeModbusTCP, 10) }
+func verif_C01_pkt_NTP() { c01Packet(LayerTypeNTP, 10) }
+func verif_C01_pkt_NortelDiscovery() { c01Packet(LayerTypeNortelDiscovery, 10) }
+func verif_C01_pkt_OSPF() { c01Packet(LayerTypeOSPF, 10) }
+func verif_C01_pkt_PFLog() { c01Packet(LayerTypePFLog, 10) }
+func verif_C01_pkt_PPP() { c01Packet(LayerTypePPP, 10) }
+func verif_C01_pkt_PPPoE() { c01Packet(LayerTypePPPoE, 10) }
+func verif_C01_pkt_Pktap() { c01Packet(LayerTypePktap, 10) }
+func verif_C01_pkt_PrismHeader() { c01Packet(LayerTypePrismHeader, 10) }
+func verif_C01_pkt_RADIUS() { c01Packet(LayerTypeRADIUS, 10) }
+func verif_C01_pkt_RMCP() { c01Packet(LayerTypeRMCP, 10) }
+func verif_C01_pkt_RUDP() { c01Packet(LayerTypeRUDP, 10) }
+func verif_C01_pkt_RadioTap() { c01Packet(LayerTypeRadioTap, 10) }
+func verif_C01_pkt_SCTP() { c01Packet(LayerTypeSCTP, 10) }
+func verif_C01_pkt_SCTPAbort() { c01Packet(LayerTypeSCTPAbort, 10) }
+func verif_C01_pkt_SCTPCookieAck() { c01Packet(LayerTypeSCTPCookieAck, 10) }
+func verif_C01_pkt_SCTPCookieEcho() { c01Packet(LayerTypeSCTPCookieEcho, 10) }
+func verif_C01_pkt_SCTPData() { c01Packet(LayerTypeSCTPData, 10) }
+func verif_C01_pkt_SCTPEmptyLayer() { c01Packet(LayerTypeSCTPEmptyLayer, 10) }
+func verif_C01_pkt_SCTPError() { c01Packet(LayerTypeSCTPError, 10) }
+func verif_C01_pkt_SCTPHeartbeat() { c01Packet(LayerTypeSCTPHeartbeat, 10) }
+func verif_C01_pkt_SCTPHeartbeatAck() { c01Packet(LayerTypeSCTPHeartbeatAck, 10) }
+func verif_C01_pkt_SCTPInit() { c01Packet(LayerTypeSCTPInit, 10) }
+func verif_C01_pkt_SCTPInitAck() { c01Packet(LayerTypeSCTPInitAck, 10) }
+func verif_C01_pkt_SCTPSack() { c01Packet(LayerTypeSCTPSack, 10) }
+func verif_C01_pkt_SCTPShutdown() { c01Packet(LayerTypeSCTPShutdown, 10) }
+func verif_C01_pkt_SCTPShutdownAck() { c01Packet(LayerTypeSCTPShutdownAck, 10) }
+func verif_C01_pkt_SCTPShutdownComplete() { c01Packet(LayerTypeSCTPShutdownComplete, 10) }
+func verif_C01_pkt_SCTPUnknownChunkType() { c01Packet(LayerTypeSCTPUnknownChunkType, 10) }
+func verif_C01_pkt_SFlow() { c01Packet(LayerTypeSFlow, 10) }
+func verif_C01_pkt_SIP() { c01Packet(LayerTypeSIP, 10) }
+func verif_C01_pkt_SNAP() { c01Packet(LayerTypeSNAP, 10) }
+func verif_C01_pkt_STP() { c01Packet(LayerTypeSTP, 10) }
+func verif_C01_pkt_TCP() { c01Packet(LayerTypeTCP, 10) }
+func verif_C01_pkt_TLS() { c01Packet(LayerTypeTLS, 10) }
+func verif_C01_pkt_UDP() { c01Packet(LayerTypeUDP, 10) }
+func verif_C01_pkt_UDPLite() { c01Packet(LayerTypeUDPLite, 10) }
+func verif_C01_pkt_USB() { c01Packet(LayerTypeUSB, 10) }
+func verif_C01_pkt_USBBulk() { c01Packet(LayerTypeUSBBulk, 10) }
+func verif_C01_pkt_USBControl() { c01Packet(LayerTypeUSBControl, 10) }
+func verif_C01_pkt_USBInterrupt() { c01Packet(LayerTypeUSBInterrupt, 10) }
+func verif_C01_pkt_USBRequestBlockSetup() { c01Packet(LayerTypeUSBRequestBlockSetup, 10) }
+func verif_C01_pkt_VRRP() { c01Packet(LayerTypeVRRP, 10) }
+func verif_C01_pkt_VXLAN() { c01Packet(LayerTypeVXLAN, 10) }
